@@ -922,4 +922,9 @@ example : ∃ q rs, run { alloc := fun b => decide (b ≤ 4096), qs := Seq.sort 
   sort_then_bsearch Seq.leId _ (refEnv_ok 4096) (some 3) _ [some 7, none, some 3]
     ⟨⟨[.uninit], rfl⟩, rfl, rfl, by decide⟩
 
+
+/-- every source fact this property's model consumes was located in the current source by tools/extract (a fact that is not
+found is emitted with a placeholder value; this obligation then fails and the check uses the reference model) -/
+theorem source_facts_located_c07 : JsonC.Generated.factsFound_al = true := by decide
+
 end JsonC.Arraylist
